@@ -967,7 +967,7 @@ def translate(spec):
         text += '\n\n'
     text += '/-- translated from %s :: %s (source digest %s) -/\n' % (spec['file'], '.'.join(spec['path']), digest)
     text += 'def %s%s : Py.M (%s) := do\n' % (spec['name'], sig, spec['returns']) + '\n'.join(ind(lines))
-    return text, digest
+    return text, digest, sig
 
 
 def main():
@@ -977,16 +977,28 @@ def main():
            '  Each definition is the translation of the named function body as it is in the working tree now.', '-/',
            'import Asn1.PyLite', '', 'set_option linter.unusedVariables false', '', 'namespace Asn1.GenK', '']
     status = {}
+    sig_file = os.path.join(VERIF, 'gen', 'kernel_sigs.json')
+    sigs = json.load(open(sig_file)) if os.path.exists(sig_file) else {}
+    sigs0 = dict(sigs)
     for spec in specs:
         try:
-            text, digest = translate(spec)
+            text, digest, sig = translate(spec)
             out.append(text)
             out.append('')
             status[spec['name']] = {'ok': True, 'digest': digest}
+            sigs[spec['name']] = sig
         except Unsupported as e:
             out.append('/- kernel %s: the source is outside the translated subset: %s -/' % (spec['name'], str(e).replace('-/', '- /')))
+            if spec['name'] in sigs:
+                # a placeholder with the signature the kernel had when it last translated, so that what does not depend on
+                # this kernel (the driver, the other kernels' theorems) still builds; the theorems about this kernel do not
+                # (they mention its auxiliary definitions, and are false of the placeholder), and the driver answers
+                # UNTRANSLATED for it
+                out.append('def %s%s : Py.M (%s) := throw (Py.PyErr.lib "UNTRANSLATED")' % (spec['name'], sigs[spec['name']], spec['returns']))
             out.append('')
             status[spec['name']] = {'ok': False, 'why': str(e)}
+    if sigs != sigs0 and not os.environ.get('VERIF_REPO'):
+        json.dump(sigs, open(sig_file, 'w'), indent=1, sort_keys=True)
     out.append('/-- names of the kernels whose source could be translated in this run -/')
     out.append('def translated : List String := [%s]' % ', '.join('"%s"' % k for k, v in status.items() if v['ok']))
     out.append('')
